@@ -545,6 +545,41 @@ def _rewrite_rev_range(body, applied):
     return body
 
 
+def _rewrite_map_collect(body, applied):
+    """R28: `E.iter().map(|x| B).collect::<Vec<_>>()` and `E.into_iter().map(|x| B).collect::<Vec<_>>()` are desugared to
+    the index loop they denote (std semantics of slice::iter / Vec::into_iter, map and collect into a Vec: A-STD):
+        { let src_ = E; let mut out_ = Vec::new(); let mut i_: usize = 0;
+          while i_ < src_.len() { let x = &src_[i_] (iter) | src_[i_] (into_iter, element types here are Copy); out_.push(B); i_ = i_ + 1; } out_ }
+    `src_`, `out_`, `i_` are generated names the loop invariants may use."""
+    for _ in range(8):
+        sb = Src("<b>", body)
+        clean = "".join(c if sb.mask[i] else " " for i, c in enumerate(body))
+        m = re.search(r'([\w.]+?)\s*\.\s*(iter|into_iter)\s*\(\s*\)\s*\.\s*map\s*\(', clean)
+        if not m:
+            return body
+        recv, kind = m.group(1), m.group(2)
+        o = m.end() - 1
+        c = sb.match_close(o)
+        arg = body[o + 1:c]
+        mc = re.match(r'\s*\|\s*(\w+)\s*\|\s*(.*)$', arg, re.S)
+        m2 = re.compile(r'\s*\.\s*collect\s*::\s*<\s*Vec\s*<\s*_\s*>\s*>\s*\(\s*\)').match(clean, c + 1)
+        if not mc or not m2:
+            raise Unsupported("R28: `.iter().map(..)` not of the form `.map(|x| ..).collect::<Vec<_>>()`")
+        x, b = mc.group(1), mc.group(2).strip()
+        elem = f"&src_[i_]" if kind == "iter" else "src_[i_]"
+        new = f"""{{ let src_ = {recv}; let mut out_ = Vec::new(); let mut i_: usize = 0;
+            while i_ < src_.len()
+            {{
+                let {x} = {elem};
+                out_.push({b});
+                i_ = i_ + 1;
+            }}
+            out_ }}"""
+        body = body[:m.start()] + new + body[m2.end():]
+        applied.append(("R28", f"E.{kind}().map(|{x}| B).collect::<Vec<_>>()", "index loop pushing B into a fresh Vec (A-STD)"))
+    return body
+
+
 def _tail_start(body):
     """offset in `body` ('{...}') where the tail expression starts (after the last top-level statement)"""
     s = Src("<b>", body)
@@ -720,6 +755,8 @@ def build_fn(unit, item, imp, fnitem, spec: Fn, cover=False):
         if n21:
             applied.append(("R21", "a + b / a - b / a * b / a op= b", f"core::ops::<Trait>::<method>(a, b) x{n21}"))
     body = _rewrite_continue(body, applied)
+    if re.search(r'\.\s*map\s*\(', body) and re.search(r'\.\s*collect\s*::', body):
+        body = _rewrite_map_collect(body, applied)
     if re.search(r'\)\s*\.rev\(\)\s*\{', body):
         body = _rewrite_rev_range(body, applied)
     if re.search(r'\.\s*chunks\s*\(', body):
